@@ -133,4 +133,151 @@ theorem loop_returned {t : Trace ρ} {m : Nat} :
         have := ih (wakeAt t k) r hb.2 h
         omega
 
+
+/-! ### with `ErrNotFound` / `ErrNotChanged` -/
+
+/-- what the doc comment of `blockingquery.Query` demands of a query function that uses the sentinels:
+    two "not found" answers carry the same (empty) result, and "not changed" is only said when the result
+    equals the one of the previous evaluation -/
+structure FlagsSound (t : Trace ρ) (f : Flags) (a : Nat) : Prop where
+  notFound : ∀ j k, a ≤ j → j ≤ k → k ≤ t.last → f.notFound j = true → f.notFound k = true → t.res k = t.res j
+  notChanged : ∀ j k, a ≤ j → j ≤ k → k ≤ t.last → f.notChanged j k = true → t.res k = t.res j
+
+/-- loop invariant before an evaluation in state `c` -/
+def LoopInv (t : Trace ρ) (f : Flags) (a : Nat) (st : LoopSt) (c : Nat) : Prop :=
+  ∃ b, a ≤ b ∧ b ≤ c ∧ st.min = t.idx b ∧ t.res b = t.res a ∧
+    (∀ j, st.prev = some j → a ≤ j ∧ j ≤ c ∧ t.res j = t.res a) ∧
+    (st.sawNotFound = true → ∃ j, a ≤ j ∧ j ≤ c ∧ f.notFound j = true ∧ t.res j = t.res a)
+
+theorem Contract.same_from {t : Trace ρ} {a : Nat} (h : Contract t a) {b c : Nat} (hab : a ≤ b) (hbc : b ≤ c)
+    (hcl : c ≤ t.last) (hi : t.idx c ≤ t.idx b) : t.res c = t.res b := by
+  have hb : Contract t b :=
+    ⟨fun k hk => h.mono k (by omega), fun k hk => h.strict k (by omega), fun j k hj => h.watch j k (by omega)⟩
+  obtain ⟨d, rfl⟩ : ∃ d, c = b + d := ⟨c - b, by omega⟩
+  exact hb.same_result d hcl hi
+
+/-- one evaluation that does not return keeps the invariant, and the evaluated state has the client's result -/
+theorem evalStep_inv {t : Trace ρ} {f : Flags} {a : Nat} (h : Contract t a) (hf : FlagsSound t f a)
+    {st : LoopSt} {c : Nat} (hac : a ≤ c) (hcl : c ≤ t.last) (inv : LoopInv t f a st c)
+    (hno : ¬ t.idx c > (evalStep t f st c).min) :
+    t.res c = t.res a ∧ ∀ c', c ≤ c' → LoopInv t f a (evalStep t f st c) c' := by
+  obtain ⟨b, hab, hbc, hmin, hres, hprev, hsaw⟩ := inv
+  -- the plain case: the index has not moved past the one blocked on
+  have plain : t.idx c ≤ st.min → t.res c = t.res a := by
+    intro hle
+    rw [hmin] at hle
+    rw [h.same_from hab hbc hcl hle, hres]
+  unfold evalStep at hno ⊢
+  by_cases hnf : f.notFound c = true
+  · simp only [hnf, if_true] at hno ⊢
+    by_cases hs : st.sawNotFound = true
+    · simp only [hs, if_true] at hno ⊢
+      obtain ⟨j, haj, hjc, hjf, hjr⟩ := hsaw hs
+      have hc : t.res c = t.res a := by rw [hf.notFound j c haj hjc hcl hjf hnf, hjr]
+      refine ⟨hc, fun c' hcc' => ⟨c, hac, hcc', rfl, hc, ?_, ?_⟩⟩
+      · intro j' hj'; simp at hj'; subst hj'; exact ⟨hac, hcc', hc⟩
+      · intro _; exact ⟨c, hac, hcc', hnf, hc⟩
+    · simp only [hs] at hno ⊢
+      have hc := plain (by simpa using hno)
+      refine ⟨hc, fun c' hcc' => ⟨b, hab, by omega, hmin, hres, ?_, ?_⟩⟩
+      · intro j' hj'; simp at hj'; subst hj'; exact ⟨hac, hcc', hc⟩
+      · intro _; exact ⟨c, hac, hcc', hnf, hc⟩
+  · simp only [hnf] at hno ⊢
+    cases hp : st.prev with
+    | none =>
+      simp only [hp] at hno ⊢
+      have hc := plain (by simpa using hno)
+      refine ⟨hc, fun c' hcc' => ⟨b, hab, by omega, hmin, hres, ?_, ?_⟩⟩
+      · intro j' hj'; simp at hj'; subst hj'; exact ⟨hac, hcc', hc⟩
+      · intro hs'; obtain ⟨j, h1, h2, h3, h4⟩ := hsaw hs'; exact ⟨j, h1, by omega, h3, h4⟩
+    | some j =>
+      simp only [hp] at hno ⊢
+      obtain ⟨haj, hjc, hjr⟩ := hprev j hp
+      by_cases hnc : f.notChanged j c = true
+      · simp only [hnc, if_true] at hno ⊢
+        have hc : t.res c = t.res a := by rw [hf.notChanged j c haj hjc hcl hnc, hjr]
+        refine ⟨hc, fun c' hcc' => ⟨c, hac, hcc', rfl, hc, ?_, ?_⟩⟩
+        · intro j' hj'; simp at hj'; subst hj'; exact ⟨hac, hcc', hc⟩
+        · intro hs'; obtain ⟨j2, h1, h2, h3, h4⟩ := hsaw hs'; exact ⟨j2, h1, by omega, h3, h4⟩
+      · simp only [hnc] at hno ⊢
+        have hc := plain (by simpa using hno)
+        refine ⟨hc, fun c' hcc' => ⟨b, hab, by omega, hmin, hres, ?_, ?_⟩⟩
+        · intro j' hj'; simp at hj'; subst hj'; exact ⟨hac, hcc', hc⟩
+        · intro hs'; obtain ⟨j2, h1, h2, h3, h4⟩ := hsaw hs'; exact ⟨j2, h1, by omega, h3, h4⟩
+
+/-- the index blocked on never falls below the client's -/
+theorem evalStep_min_ge {t : Trace ρ} {f : Flags} {a : Nat} (h : Contract t a) {st : LoopSt} {c : Nat}
+    (hcl : c ≤ t.last) (inv : LoopInv t f a st c) : t.idx a ≤ (evalStep t f st c).min := by
+  obtain ⟨b, hab, hbc, hmin, -, -, -⟩ := inv
+  have e1 : b = a + (b - a) := by omega
+  have h1 : t.idx a ≤ t.idx b := by
+    have := h.idx_le (b - a) a (Nat.le_refl _) (by omega)
+    rwa [← e1] at this
+  have e2 : c = a + (c - a) := by omega
+  have h2 : t.idx a ≤ t.idx c := by
+    have := h.idx_le (c - a) a (Nat.le_refl _) (by omega)
+    rwa [← e2] at this
+  unfold evalStep
+  split
+  · simp only; split <;> omega
+  · split
+    · split <;> simp only <;> omega
+    · simp only; omega
+
+/-- With the sentinels: a request that times out holds a result that is CURRENT — the last evaluation gave the
+    client's result and nothing changed after it. (A change that was undone again before the loop looked is not
+    reported; neither is it by the plain loop, which would return the same result with a larger index.) -/
+theorem loopF_timeout {t : Trace ρ} {f : Flags} {a : Nat} (h : Contract t a) (hf : FlagsSound t f a) :
+    ∀ fuel st c e, a ≤ c → c ≤ t.last → t.last - c < fuel → LoopInv t f a st c → loopF t f fuel st c = .timeout e →
+      t.res e = t.res a ∧ ∀ k, e ≤ k → k ≤ t.last → t.res k = t.res a := by
+  intro fuel
+  induction fuel with
+  | zero => intro st c e _ _ hfu; omega
+  | succ fuel ih =>
+    intro st c e hac hcl hfu inv hr
+    simp only [loopF] at hr
+    split at hr
+    · simp at hr
+    · next hno =>
+      obtain ⟨hc, hinv⟩ := evalStep_inv h hf hac hcl inv hno
+      split at hr
+      · next hnone =>
+        simp at hr; subst hr
+        refine ⟨hc, fun k hck hkl => ?_⟩
+        by_cases hk : k = c
+        · subst hk; exact hc
+        · have hf' := firstFired_none _ _ hnone k (by omega) (by omega)
+          by_cases hne : t.res k = t.res c
+          · rw [hne, hc]
+          · have := h.watch c k hac (by omega) hkl hne
+            rw [this] at hf'; simp at hf'
+      · next r hsome =>
+        obtain ⟨h1, h2, _⟩ := firstFired_some _ _ _ hsome
+        have hb := wakeAt_bounds t (k := r) (by omega)
+        exact ih _ (wakeAt t r) e (by omega) hb.2 (by omega) (hinv _ (by omega)) hr
+
+theorem loopF_returned {t : Trace ρ} {f : Flags} {a : Nat} (h : Contract t a) (hf : FlagsSound t f a) :
+    ∀ fuel st c r, a ≤ c → c ≤ t.last → LoopInv t f a st c → loopF t f fuel st c = .returned r →
+      t.idx a < t.idx r ∧ c ≤ r ∧ r ≤ t.last := by
+  intro fuel
+  induction fuel with
+  | zero => intro st c r _ _ _ hr; simp [loopF] at hr
+  | succ fuel ih =>
+    intro st c r hac hcl inv hr
+    simp only [loopF] at hr
+    split at hr
+    · next hi =>
+      simp at hr; subst hr
+      have := evalStep_min_ge h hcl inv
+      exact ⟨by omega, Nat.le_refl _, hcl⟩
+    · next hno =>
+      obtain ⟨-, hinv⟩ := evalStep_inv h hf hac hcl inv hno
+      split at hr
+      · simp at hr
+      · next k hsome =>
+        obtain ⟨h1, h2, _⟩ := firstFired_some _ _ _ hsome
+        have hb := wakeAt_bounds t (k := k) (by omega)
+        have := ih _ (wakeAt t k) r (by omega) hb.2 (hinv _ (by omega)) hr
+        omega
+
 end CV.BQ
